@@ -1,4 +1,4 @@
-import PikaVerif.Lemmas.DequeHarm
+import PikaVerif.Lemmas.DequeTag2
 /-!
 # C17 — concurrent queues return every element exactly once (lock-free deque, back-end adapters)
 
@@ -196,6 +196,16 @@ theorem C17_deque_stale_only_by_recycling (n : Nat) (log : List Ev) (s : St)
     (h : runLog step (init n) log = some s) (hr : NoRecycledCas n log) : s.stale = false := by
   obtain ⟨m, hm⟩ := runM_exists (fx := false) mon0 h
   exact (stale_false_of_aba_false hm (hr s m hm)).1
+
+/-- **Characterisation (exactness).**  Along every run of the pinned tree's model with the recycling
+    monitor: a stabilisation link CAS was stale **iff** a link CAS succeeded on a node that had been
+    freed while the thread held its snapshot of it.  So `stale = false` *is* the recycling
+    condition: `NoRecycledCas` is not merely sufficient for the `_partial` theorems, it is their
+    hypothesis restated on the log. -/
+theorem C17_deque_stale_iff_recycled_cas (n : Nat) (log : List Ev) (s : St) (m : Mon)
+    (h : runLog (stepM false) (init n, mon0) log = some (s, m)) :
+    s.stale = false ↔ m.aba = false :=
+  ⟨aba_false_of_stale_false h, fun hm => (stale_false_of_aba_false h hm).1⟩
 
 /-- **Exactly once, pinned tree, under the recycling condition** (all thread counts, operation
     mixes and interleavings): conservation as a multiset, nothing popped twice or invented, drained
